@@ -50,3 +50,53 @@ package table
 //@ trusted func @(github.com/dgraph-io/badger/v4/table.TableInterface).Smallest
 //@ trusted func @(github.com/dgraph-io/badger/v4/table.TableInterface).Biggest
 //@ trusted func @(github.com/dgraph-io/badger/v4/table.TableInterface).MaxVersion
+
+// ---- merged iteration (C21): the decision table of MergeIterator.fix and the driver loop ----
+// Light mode: the two-way merge node stores interior pointers (&mi.left / &mi.right in
+// mi.small), which the typed heap model does not represent; what is checked is which branch
+// does what: on equal keys the RIGHT child (the later input) is advanced, so the earlier input
+// wins; the smaller key is selected forward and the bigger one in reverse; keys are compared as
+// internal keys; Next skips every entry equal to the current key and then records the new one.
+
+//@ func (*MergeIterator).fix
+//@   props C21
+//@   light
+//@   assert[internal-key-order] before call CompareKeys : arg0 == mi.small.key
+//@   assert[equal-advances-right] before call next : ret(CompareKeys#1) == 0 && arg0 == &mi.right
+//@   assert[right-exhausted-or-smaller-swaps] before call swapSmall#2 : called(next#1)
+//@   assert[forward-keeps-smaller] before call swapSmall#3 : mi.reverse && ret(CompareKeys#1) < 0
+//@   assert[reverse-keeps-bigger] before call swapSmall#4 : !mi.reverse && ret(CompareKeys#1) > 0
+//@   assert[invalid-small-swaps] before call swapSmall#1 : !called(CompareKeys#1)
+
+//@ func (*MergeIterator).Next
+//@   props C21
+//@   light
+//@   assert[skip-equal-to-current] before call Equal : arg1 == mi.curKey && arg0 == mi.small.key
+//@   assert[advance-then-fix] before call fix : called(next#1) && arg0 == mi
+//@   assert[record-current] before return : called(setCurrent#1)
+
+//@ func (*MergeIterator).Seek
+//@   props C21
+//@   light
+//@   assert[both-children-left] before call seek#1 : arg0 == &mi.left && arg1 == key
+//@   assert[both-children-right] before call seek#2 : arg0 == &mi.right && arg1 == key
+//@   assert[then-fix] before call fix : called(seek#1) && called(seek#2)
+//@   assert[record-current] before return : called(setCurrent#1)
+
+//@ func (*MergeIterator).Rewind
+//@   props C21
+//@   light
+//@   assert[both-children-left] before call rewind#1 : arg0 == &mi.left
+//@   assert[both-children-right] before call rewind#2 : arg0 == &mi.right
+//@   assert[then-fix] before call fix : called(rewind#1) && called(rewind#2)
+//@   assert[record-current] before return : called(setCurrent#1)
+
+// bigger compares interior pointers, which the model does not represent: its result is left
+// unconstrained; it writes nothing (trusted frame).
+//@ trusted func (*MergeIterator).bigger
+//@   assigns nothing
+
+//@ func (*MergeIterator).setCurrent
+//@   props C21
+//@   light
+//@   assert[copy-of-small-key] before call append : arg1 == mi.small.key
